@@ -119,6 +119,18 @@ pub fn run(kv: &Args) -> i32 {
         let mut rseed = ReceiverOTSeed::default();
         writeln!(plan, "ot v={v} choice={}", hex(&choice)).unwrap();
         window(&out, &format!("pprf_eval_{v}"), || { eval_pprf(&sid, &ro, &pprf, &mut rseed).unwrap(); });
+        // secret seed VALUES with structure: in variant 2 a known (non-punctured) leaf key of trees 0 and 63 is all-zero,
+        // in variant 3 all-one, consistently on both sides; control flow may depend on the punctured INDEX being public
+        // to its owner, never on key bytes
+        if v % 4 >= 2 {
+            for tree in [0usize, 63] {
+                let d = rseed.random_choices[tree] as usize;
+                let leaf = (d + 1 + tree % 7) % 16;
+                let key = if v % 4 == 2 { [0u8; 32] } else { [0xffu8; 32] };
+                sseed.otp_enc_keys[tree][leaf] = key;
+                rseed.otp_dec_keys[tree][leaf] = key;
+            }
+        }
         // OT extension + RVOLE
         let mut round1 = Round1Output::default();
         let (rvr, _b) = sl_oblivious::rvole::RVOLEReceiver::new(sid, &sseed, &mut round1, &mut r);
@@ -130,7 +142,9 @@ pub fn run(kv: &Args) -> i32 {
             _ => [k256::Scalar::random(&mut r), k256::Scalar::random(&mut r)],
         };
         let mut out2 = sl_oblivious::rvole::RVOLEOutput::default();
-        let mut r2 = rng(seed, &format!("c18-rvole-{v}"));
+        // secret randomness with structure: the first 32 (64) tape bytes all-one in variant 1 (a scalar candidate above the
+        // group order), all-zero in variant 3
+        let mut r2 = tape_rng(seed, &format!("c18-rvole-{v}{}", match v % 4 { 1 => "#ones64", 3 => "#zero64", _ => "" }));
         window(&out, &format!("rvole_sender_{v}"), || {
             sl_oblivious::rvole::RVOLESender::process(&sid, &rseed, &a, &round1, &mut out2, &mut r2).unwrap();
         });
